@@ -309,8 +309,63 @@ def stream_start(F, R):
     R.floor('C08.stream-accounting', 'streamed sends that signal the payload handle', n, 2)
 
 
+def rollback_scope(F, R):
+    """A send that is refused because another payload stream is open (check_streaming() failed) must leave that stream's
+    state alone. The roll-back `streaming_remaining.set(None)` therefore belongs to errors of this send's own start only:
+    it is not reachable from the refusal edge of check_streaming(), and a roll-back closure (`.inspect_err(|_| ..set(None))`)
+    is not attached to a Result that can carry check_streaming()'s error."""
+    n = 0
+    for ver in ('v3', 'v5'):
+        for b in F.find(r'^%s::shared::MqttShared::\w+$' % ver):
+            cks = list(b.calls_to(r'%s::shared::MqttShared::check_streaming$' % ver))
+            ens = list(b.calls_to(r'%s::shared::MqttShared::enable_streaming$' % ver))
+            if not cks or not ens:
+                continue
+            def resets_in(body):
+                out = []
+                for bi, t in body.calls_to(r'Cell::<T>::(set|take|replace)$'):
+                    ap = call_recv_path(body, t, 0)
+                    if ap and ap[-1] == 'streaming_remaining':
+                        out.append(bi)
+                return out
+            inline = resets_in(b)
+            for cbi, ct in cks:
+                n += 1
+                # refusal edge: the Err side of the test applied to the result (match / `?`)
+                err_starts = []
+                r = discr_switch_after_call(b, cbi)
+                if r:
+                    err_starts.append(r[1].get(1, r[2]))
+                for xb, xt in b.calls():
+                    if re.search(r'Try>::branch$', callee_name(xt) or '') and xt['args'] and any(l[0] == 'call' and l[2] == cbi for l in Origin(b).of_operand(xt['args'][0])):
+                        r2 = discr_switch_after_call(b, xb)
+                        if r2:
+                            err_starts.append(r2[1].get(1, r2[2]))
+                ok_edges = [x for x in ([r[1].get(0, r[2])] if r else [])]
+                bad_inline = [x for x in inline for e in err_starts if x in b.reachable(e, avoid=[bi_ for bi_, _ in ens])]
+                R.ob('C08.stream-accounting', '%s|check_streaming-refused=>stream-state-untouched' % short_fn(b.path), not bad_inline,
+                     'when check_streaming() refuses the send (a payload stream is open) the function still resets streaming_remaining: the open stream is forgotten and its remaining chunks are refused, or other packets are interleaved into it', b.loc(bad_inline[0]) if bad_inline else b.loc(cbi))
+                # roll-back closures attached to a Result that can carry the refusal
+                for c in F.children.get(b.path, []):
+                    if not resets_in(c):
+                        continue
+                    for xb, xt in b.calls():
+                        nm = callee_name(xt) or ''
+                        if not re.search(r'::(inspect_err|map_err|or_else|unwrap_or_else)$', nm) or len(xt['args']) < 2:
+                            continue
+                        fo = Origin(b).of_operand(xt['args'][1])
+                        if not any(l[0] == 'agg' and c.path in str(l[1]) for l in fo):
+                            continue
+                        ro = Origin(b, transparent=re.compile(TRANSPARENT_CALLS.pattern[:-2] + r'|and_then|map|map_err|inspect_err|inspect|or_else|branch|from_residual)$')).of_operand(xt['args'][0])
+                        carries = any(l[0] == 'call' and l[2] == cbi for l in ro)
+                        R.ob('C08.stream-accounting', '%s|roll-back-closure|attached-to-own-start-only' % short_fn(b.path), not carries,
+                             'the roll-back of the stream state runs for errors of check_streaming() as well: a send refused because a stream is open wipes that stream\'s accounting', b.loc(xb))
+    R.floor('C08.stream-accounting', 'check_streaming sites before a stream start', n, 2)
+
+
 def stream_accounting(F, R):
     stream_start(F, R)
+    rollback_scope(F, R)
     for ver in ('v3', 'v5'):
         b = F.one(r'^%s::shared::MqttShared::encode_publish_payload$' % ver)
         encs = [bi for bi, t in b.calls_to(IO_ENCODE)]
